@@ -606,6 +606,7 @@ class C04Engine(Engine):
                        ls_options=r.choice([{}, {"atol": 1e-10, "rtol": 1e-10}]))
             cfg.pop("max_coarse", None)
             cfg.pop("weight", None)
+            dim = 2
         e = substream(seed, "env")
         env = {"tracemalloc": "real" if e.random() < 0.1 else "stub", "np_seed": e.randint(0, 2**31)}
         if e.random() < 0.5:
